@@ -11,6 +11,8 @@
   Helper lemmas: `I3.Lemmas.Mimc7`.  Core Lean only.
 -/
 import I3.Lemmas.Mimc7
+import I3.Lemmas.Conv
+import I3.Lemmas.Sponge
 import I3.Model.Instances
 import I3.Props.C07
 namespace I3.Props.C08
@@ -40,6 +42,25 @@ theorem getConstants_getElem (seed : Bytes) (n i : Nat) (hn : 1 ≤ n) (hi : i <
   simp only [Lemmas.Mimc7.getConstants_eq seed n hn, List.getElem_map, List.getElem_range]
 
 theorem cst_lt (seed : Bytes) (i : Nat) : Spec.Mimc7.cst seed i < q := Lemmas.Mimc7.cst_lt seed i
+
+/-- every link of the chain is a full 32-byte digest … -/
+theorem digest_length (seed : Bytes) (i : Nat) : (Spec.Mimc7.digest seed i).length = 32 := by
+  cases i <;> simp only [Spec.Mimc7.digest, Keccak.keccak256] <;>
+    exact Lemmas.Sponge.squeeze32_length _
+
+/-- … so passing it through an unbounded integer and re-encoding it on 32 bytes (what the Go loop
+    does with `big.Int.SetBytes` / `FillBytes(make([]byte, 32))`) is lossless, also when the digest
+    starts with zero bytes. -/
+theorem digest_fillBytes (seed : Bytes) (i : Nat) :
+    natToBE 32 (beToNat (Spec.Mimc7.digest seed i)) = Spec.Mimc7.digest seed i := by
+  have := Lemmas.Conv.natToBE_beToNat (Spec.Mimc7.digest seed i)
+  rwa [digest_length] at this
+
+/-- the chain, one step: `c_{i+1} = int(Keccak-256(fill32(int(digest_i)))) mod q`. -/
+theorem cst_succ (seed : Bytes) (i : Nat) :
+    Spec.Mimc7.cst seed (i + 1) =
+      beToNat (Keccak.keccak256 (natToBE 32 (beToNat (Spec.Mimc7.digest seed i)))) % q := by
+  rw [digest_fillBytes, Lemmas.Mimc7.cst_succ]
 
 /-! ## 2. single-block MiMC7 -/
 
